@@ -463,7 +463,9 @@ func genWide(rng *rand.Rand, k int) RunSpec {
 	failing := n - 1 - rng.Intn(5)
 	for j := 1; j <= J; j++ {
 		rs.Deps = append(rs.Deps, []int{})
-		o, b := "ok", 6000+rng.Intn(3000)
+		// long enough for the caller to have enqueued everything (an Enqueue with its stamped log entries costs
+		// ~0.1 ms with hundreds of workers): the other bodies are still running when the failure is read
+		o, b := "ok", 40000+300*J+rng.Intn(3000)
 		if j == failing {
 			o, b = "err", 500
 		}
